@@ -240,6 +240,7 @@ where
             if cl.is_err() {
                 vsched::violate("C11/drop-panic", "dropping the instance panicked".into());
             }
+            vsched::mark("instance-dropped", 0, 0);
         }
         _ => {
             // async-style: SignalDelivery over the harness socket pair + poll_signal
@@ -340,6 +341,7 @@ where
             if cl.is_err() {
                 vsched::violate("C11/drop-panic", "dropping the instance panicked".into());
             }
+            vsched::mark("instance-dropped", 0, 0);
         }
     }
 }
@@ -462,6 +464,7 @@ pub fn execute(case: &IterCase) -> (RunResult, CaseReport) {
             }
             // nobody but the consumer holds the instance from here on
             *slot_for_observer.lock().unwrap() = None;
+            vsched::mark("handles-dropped", 0, 0);
             // the world does not stop sending signals while the instance is torn down
             for s in &late {
                 sim_deliver(SIGS[*s as usize % 3], false);
@@ -595,6 +598,26 @@ pub fn analyse(case: &IterCase, res: &RunResult) -> CaseReport {
     let first_close_call = closes.iter().map(|c| c.0).min();
     let first_close_ret = closes.iter().filter_map(|c| c.1).min();
     let user_close = closes.iter().any(|c| !c.2);
+
+    // ---- C01 (removal by dropping the owner): once the instance and every handle are gone, none
+    // of its actions may run any more
+    {
+        let inst = log.iter().position(|r| matches!(&r.item, Item::Mark { name, .. } if *name == "instance-dropped"));
+        let hand = log.iter().position(|r| matches!(&r.item, Item::Mark { name, .. } if *name == "handles-dropped"));
+        if let (Some(a), Some(b)) = (inst, hand) {
+            let gone = a.max(b);
+            for d in &dels {
+                if let Some(s) = d.stored {
+                    if d.start > gone {
+                        rep.viol("C01/ran-after-removal", format!("delivery {} of signal {} ran an action of an iterator instance that had been dropped together with all its handles (store at log position {} > {})", d.id, d.sig, s, gone));
+                    }
+                }
+            }
+            if dels.iter().any(|d| d.start > gone) {
+                rep.class("delivery-after-instance-drop");
+            }
+        }
+    }
 
     // ---- C10: only real, registered, not-yet-reported deliveries
     {
@@ -767,7 +790,8 @@ pub fn analyse(case: &IterCase, res: &RunResult) -> CaseReport {
     rep.count("switches", res.switches);
     rep.count("deliveries", dels.len() as u64);
     rep.count("yields", yields.len() as u64);
-    rep.nontrivial_by = vec![("C09".into(), nt09), ("C10".into(), nt10), ("C11".into(), nt11), ("C03".into(), nt09)];
+    let nt01 = !case.late.is_empty();
+    rep.nontrivial_by = vec![("C09".into(), nt09), ("C10".into(), nt10), ("C11".into(), nt11), ("C03".into(), nt09), ("C01".into(), nt01)];
     rep.nontrivial = nt09 || nt10 || nt11;
     // C03 on iterator actions: reuse the op-kind rule inside deliveries
     for d in dels.iter().filter(|d| d.target == 1) {
